@@ -91,6 +91,7 @@ def verify(contract, scratch, tucache, bounded=0, bcase=None):
         ex = Exec(tu, fn, contract.short() + (f'@{ci}' if len(contract.cases) > 1 else ''))
         ex.aux_tus = aux
         ex.bounded = bounded
+        ex.safety_tags = set(getattr(contract, 'safety_tags', None) or {'C17'})
         ex.decl_assume = getattr(contract, 'domain_after', None)
         ex.domain_values = getattr(contract, 'domain_values', None)
         ex.plain_abort = getattr(contract, 'plain_abort', False)      # the SIGINT handler itself: Display::abort is an ordinary global there
